@@ -128,7 +128,8 @@ class Recorder:
             be = solver if solver is not None else getattr(prob, 'solver', None)
             blim = getattr(be, 'timeLimit', None)
             entry = dict(problem=snap, answer=None, fault=None,
-                         backend_limit=(None if blim is None else float(blim)))
+                         backend_limit=(None if blim is None else float(blim)),
+                         backend_plain=backend_plain(be))
             rec.solves.append(entry)
             fault = rec.faults.get(k)
             if fault is None and 'from' in rec.faults and k >= rec.faults['from']['k']:
@@ -198,6 +199,17 @@ def recording(solver_obj, faults=None, on_solve=None):
 
 
 # ---- Coq encoders ----------------------------------------------------------------------
+
+def backend_plain(be):
+    """The model's oracle is an exact MILP solve of the problem handed over, nothing else.  Besides the problem, the
+    message switch, the caller's time limit and the caller's thread count, the back end must therefore be configured
+    plainly: integer mode, no start solution taken from an earlier solve, no optimality gap, no extra options."""
+    if be is None:
+        return True
+    od = getattr(be, 'optionsDict', None) or {}
+    return bool(getattr(be, 'mip', True)) and not od.get('warmStart') and od.get('gapRel') is None \
+        and od.get('gapAbs') is None and not od.get('maxNodes') and not (getattr(be, 'options', None) or [])
+
 
 def cvar(r):
     kind = r[0]
